@@ -42,6 +42,8 @@ impl Metrics {
 // The set of collector data to retain, filled by the store cleanup.
 #[verifier::external_body] pub struct Cleanup { _opaque: () }
 impl Cleanup {
+    // ghost: the store run `st` has completed its cleanup into this retain set
+    pub uninterp spec fn has_kept_points_of(&self, st: &StoreRun<'_>) -> bool;
     #[verifier::external_body]
     pub fn new() -> (r: Cleanup) { unimplemented!() }
 }
@@ -60,6 +62,9 @@ impl<'a> StoreRun<'a> {
     #[verifier::external_body]
     pub fn cleanup(&self, collector: &mut Cleanup) -> (r: Result<(), Failed>)
         requires !self.engine_dirty(),
+        // C40: on success the retain set holds the repository / module of every stored publication point
+        // that was kept (proved for store::Run::cleanup in unit cleanup_store)
+        ensures r is Ok ==> final(collector).has_kept_points_of(self),
     { unimplemented!() }
     // The other operations of store::Run (none of them removes stored data).
     #[verifier::external_body]
@@ -93,6 +98,9 @@ impl<'a> CollectorRun<'a> {
     #[verifier::external_body]
     pub fn cleanup(&self, retain: &mut Cleanup) -> (r: Result<(), Failed>)
         requires !self.engine_dirty(),
+        // C40: the collector deletes what is not in `retain` (units cleanup_rrdp / cleanup_rsync), so it may
+        // only run once the store of THIS run has added the repositories of the stored points it keeps
+        exists|st: &StoreRun<'a>| old(retain).has_kept_points_of(st),
     { unimplemented!() }
     // The other operations of collector::Run (none of them removes collector data).
     #[verifier::external_body]
